@@ -55,7 +55,10 @@ func (f *MemFile) Chdir() error {
 		return &fs.PathError{Op: op, Path: f.name, Err: err}
 	}
 
-	_ = f.vfs.SetCurDir(f.name)
+	// the current directory is an absolute, clean path.
+	absPath, _ := f.vfs.Abs(f.name)
+
+	_ = f.vfs.SetCurDir(absPath)
 
 	return nil
 }
